@@ -1,3 +1,4 @@
+// @READY (registered in vf/props.py)
 // appended to src/sender/block.rs (scratch copy only) -- C08: No-Code shard slicing (iterator adapters, outside Verus)
 #[cfg(any(kani, test))]
 #[allow(dead_code, unused_imports, unused_macros)]
